@@ -33,7 +33,8 @@ def make_stream(rng, nframes, garbage):
         kind = rng.choice(["APP", "APP", "HB", "TR"])
         seq = 2 + i
         if kind == "APP":
-            f = p.frame("APP", seq, pay="p%d" % seq + "x" * rng.choice([0, 0, 3, 40]))
+            # values that look like framing: a marker, a CheckSum field, a BodyLength field inside a value
+            f = p.frame("APP", seq, pay="p%d" % seq + rng.choice(["", "", "xxx", "x" * 40, " 8=FIX.4.4 ", "10=000", " 9=12 ", "8=FIX.4.4\x029=5"]))
             expect.append(seq)
         elif kind == "HB":
             f = p.frame("HB", seq)
